@@ -14,11 +14,13 @@ Property theorems only (lemmas: `Proofs/ItemSpaceBind`, `ItemSpaceTable`, `ItemS
    (`World`, `step`, `run`): equal keys give the same instance, different keys give instances
    that share no identity (so an assignment in one changes no value of another), and an
    interface obtained earlier is dead or denotes the live instance of the same address.
-3. what edits of the definitions leave behind: an edit for which modelx calls
-   `clear_subs_rootitems` leaves no dynamic space built from the edited base
-   (`instance_fresh_partial`); for the other edits this is FALSE of the code, for dynamic
-   spaces whose base is not the space they hang under (`instance_fresh_full_statement_fails`,
-   known finding C07-dynbase-edit-not-propagated).
+3. what edits of the definitions leave behind: after ANY edit of a static space (a cells
+   created, redefined, renamed or deleted; a child space created or deleted; a reference
+   created, changed or deleted; the parameter formula set or deleted; a model-level reference)
+   and after the deletion of a space, no dynamic space built from the edited (deleted) space is
+   left, wherever it hangs (`instance_fresh`, `deleted_base_leaves_no_instance`).  This was FALSE
+   of the code before the repair 482219e (fixed finding C07-dynbase-edit-not-propagated; its
+   witnesses stay in `corpus/C07/` and run first).
 4. the reference chain of a dynamic space in the order `space.py` lists it
    (`Generated.mxDynRefsOrder`, re-read from the source on every run).
 -/
@@ -179,17 +181,48 @@ theorem handle_is_cached (t : Table) (hinv : Inv t) (e : Entry) (he : e ∈ t.li
 
 /-! ## 3. Freshness after edits -/
 
-/-- **No stale instance after an edit that modelx propagates** (`new_cells`, a formula change,
-a cells rename – the edits for which `clear_subs_rootitems` is called): no dynamic space built
-from the edited space is left, wherever it hangs (own ItemSpaces, replicated children of
-other ItemSpaces, instances of another parent that chose this base). -/
-theorem instance_fresh_partial (t : Table) (k : EditKind) (b : SId) (hk : k.propagated = true) :
+/-- **No stale instance after any edit of the base**: whatever the edit of the static space
+`b` – `new_cells`, a formula change, a cells rename, a cells deleted, a child space created or
+deleted, a reference created/changed/deleted, the parameter formula set or deleted, a
+model-level reference – no dynamic space built from `b` is left, wherever it hangs (own
+ItemSpaces, replicated children of other ItemSpaces, instances of another parent that chose
+this base).  The next access therefore builds a new instance from the edited definitions. -/
+theorem instance_fresh (t : Table) (k : EditKind) (b : SId) :
     ∀ e ∈ (applyEdit t k b).live, e.base ≠ b := by
-  cases k <;> simp [EditKind.propagated] at hk
+  cases k <;> simp only [applyEdit]
   · exact clearSubsRootItems_no_copy _ b
   · exact clearSubsRootItems_no_copy t b
-  · intro e he
-    exact clearSubsRootItems_no_copy t b e (nsChange_sub _ b e he)
+  · exact fun e he => clearSubsRootItems_no_copy t b e (nsChange_sub _ b e he)
+  · exact nsChange_no_copy t b
+  · exact nsChange_no_copy t b
+  · exact nsChange_no_copy t b
+  · exact fun e he => nsChange_no_copy t b e (dynRefsChange_sub _ b e he)
+  · exact fun e he => nsChange_no_copy t b e (dynRefsChange_sub _ b e he)
+  · exact fun e he => nsChange_no_copy t b e (dynRefsChange_sub _ b e he)
+  · exact clearSubsRootItems_no_copy _ b
+  · intro e he; cases he
+
+/-- **Deleting a space leaves no instance of it or of a space below it**, wherever it hangs. -/
+theorem deleted_base_leaves_no_instance (defs : Defs) (t : Table) (d : SDef) :
+    ∀ e ∈ (delSpace defs t d).2.live, ∀ x ∈ defs, d.path.isPrefixOf x.path = true → e.base ≠ x.id :=
+  delSpace_no_copy defs t d
+
+/-- every edit and every deletion only removes dynamic spaces (nothing is re-created behind
+the user's back; handles stay cached: `old_handle`) -/
+theorem edit_only_removes (t : Table) (k : EditKind) (b : SId) :
+    ∀ e ∈ (applyEdit t k b).live, e ∈ t.live := by
+  cases k <;> simp only [applyEdit]
+  · exact fun e he => nsChange_sub t b e (clearSubsRootItems_sub _ b e he)
+  · exact clearSubsRootItems_sub t b
+  · exact fun e he => clearSubsRootItems_sub t b e (nsChange_sub _ b e he)
+  · exact nsChange_sub t b
+  · exact nsChange_sub t b
+  · exact nsChange_sub t b
+  · exact fun e he => nsChange_sub t b e (dynRefsChange_sub _ b e he)
+  · exact fun e he => nsChange_sub t b e (dynRefsChange_sub _ b e he)
+  · exact fun e he => nsChange_sub t b e (dynRefsChange_sub _ b e he)
+  · exact fun e he => clearItems_sub t _ e (clearSubsRootItems_sub _ b e he)
+  · intro e he; cases he
 
 /-- a small world for the witnesses: static `S` (id 0, parameter `i`) with a child space `S.X` (id 1) -/
 def demoDefs : Defs := [⟨0, ["S"], some [⟨"i", none⟩], none⟩, ⟨1, ["S", "X"], none, none⟩]
@@ -199,15 +232,10 @@ def demoWorld : World :=
   run { defs := demoDefs, nextStatic := 2 }
     [.item ["S"] [.call [1] []], .item ["S"] [.call [] [("i", 2)]]]
 
-/-- **The full statement is false of the code**: deleting a cells of `S.X` (an edit that
-reaches `S.X` only through its namespace) leaves `S[1].X`, built from `S.X`, alive.
-(Known finding C07-dynbase-edit-not-propagated.) -/
-theorem instance_fresh_full_statement_fails :
-    ¬ ∀ (t : Table) (k : EditKind) (b : SId), ∀ e ∈ (applyEdit t k b).live, e.base ≠ b := by
-  intro h
-  have := h demoWorld.tbl .delCells 1
-  revert this
-  decide
+/-- the witness of the fixed finding C07-dynbase-edit-not-propagated, now as a regression:
+deleting a cells of `S.X` (an edit that reaches `S.X` only through its namespace) removes
+`S[1]` and `S[2]`, in which the copies of `S.X` live -/
+theorem fixed_witness_del_cells : (applyEdit demoWorld.tbl .delCells 1).live = [] := by decide
 
 /-! ## 4. The reference chain -/
 
@@ -312,8 +340,10 @@ example : (applyEdit demoWorld.tbl .setFormula 1).live = [] := by decide
 example : ((step { demoWorld with tbl := applyEdit demoWorld.tbl .setFormula 1 }
     (.item ["S"] [.call [1] []])).1.tbl.live.map (fun e => (e.addr.dkey, e.impl, e.handle))) =
     [([.key [1]], 4, 0), ([.key [1], .name "X"], 5, 1)] := by decide
--- the edit that is not propagated: everything survives
-example : (applyEdit demoWorld.tbl .delCells 1).live.length = 4 := by decide
+-- an edit of S (not of S.X) removes S's own ItemSpaces with the copies of S.X below them
+example : (applyEdit demoWorld.tbl .newRef 0).live = [] := by decide
+-- an edit of a space nothing was built from removes nothing
+example : (applyEdit demoWorld.tbl .delCells 7).live.length = 4 := by decide
 
 -- the chain: a parameter `i` shadows the base's `i` and the model's; the inner `i` wins
 example : chainFind (chain [[("i", 2)], [("i", 1)]] [("r", 7)] [] [("i", 50), ("r", 3)] [("i", 99), ("u", 11)]) "i"
